@@ -27,6 +27,14 @@ type PD struct {
 	Same int
 	Lit  int
 }
+
+func cvScopeE(v int) (int, error) {
+	vtr.Enter("cvScopeE", v)
+	if vtr.Fail("cvScopeE") {
+		return 0, vtr.ErrOf("cvScopeE")
+	}
+	return v + 1, nil
+}
 `
 
 var toggleChoices = map[string][2]string{
@@ -87,6 +95,8 @@ func GenScoping(r *rand.Rand, oneToggle string) []*Iface {
 				it.Notations = append(it.Notations, *n)
 			}
 		}
+		// the marker may stand anywhere among the interface-level notations
+		r.Shuffle(len(it.Notations), func(a, b int) { it.Notations[a], it.Notations[b] = it.Notations[b], it.Notations[a] })
 		nm := 1 + r.Intn(6)
 		for j := 0; j < nm; j++ {
 			m := &Method{Name: fmt.Sprintf("F%c%d", 'A'+byte(r.Intn(26)), mc), Src: Param{Type: "*PS"}, Dst: Param{Type: "*PD"}}
@@ -105,9 +115,14 @@ func GenScoping(r *rand.Rand, oneToggle string) []*Iface {
 					m.Notations = append(m.Notations, Notation{Name: cand[0], Args: cand[1:]})
 				}
 			}
+			m.HasErr = r.Intn(4) == 0
+			if m.HasErr && r.Intn(2) == 0 {
+				// an assignment that can fail: its error-return statement depends on this method's own style
+				m.Notations = append(m.Notations, Notation{Name: "conv", Args: []string{"cvScopeE", "Aux", []string{"Same", "Lit", "Tc"}[r.Intn(3)]}})
+				m.ErrSites = append(m.ErrSites, "cvScopeE")
+			}
 			// shuffle notation order
 			r.Shuffle(len(m.Notations), func(a, b int) { m.Notations[a], m.Notations[b] = m.Notations[b], m.Notations[a] })
-			m.HasErr = r.Intn(4) == 0
 			it.Methods = append(it.Methods, m)
 		}
 		out = append(out, it)
